@@ -45,9 +45,8 @@ Proof.
     destruct (alookup id (s_uploads s)) as [u|]; [|cbn; auto].
     destruct crange as [cr|]; [|cbn; auto].
     destruct (parse_byte_range cr) as [br|]; [|cbn; auto].
-    destruct (_ || _); [cbn; auto|].
-    destruct (_ <? _); [cbn; auto|].
-    destruct (_ || _); [cbn; auto|].
+    destruct (resume_apply (up_data u) br data) as [data'|]; [|cbn; auto].
+    destruct (resume_done br data'); [|cbn; auto].
     match goal with
     | |- context [finish_upload ?s1 ?b ?n ?ct ?md ?meta ?data ?c] =>
         pose proof (finish_upload_frame s1 b n ct md meta data c) as HF;
